@@ -113,7 +113,11 @@ class CallSet:
         qual = "." if r.qual is None else (str(int(r.qual)) if float(r.qual).is_integer() else repr(r.qual))
         cols = [r.contig, str(r.pos), r.id, r.ref, ",".join(r.alts) if r.alts else ".", qual,
                 ";".join(r.filt) if r.filt else ".", ";".join(info) if info else "."]
-        if self.samples:
+        if self.samples and r.no_gt and not r.extra_fmt:
+            # no FORMAT field at all: the FORMAT column and every sample column are '.'
+            cols.append(".")
+            cols += ["."] * len(r.gts)
+        elif self.samples:
             keys = ([] if r.no_gt else ["GT"]) + list(r.extra_fmt.keys())
             cols.append(":".join(keys))
             for si, g in enumerate(r.gts):
@@ -206,6 +210,13 @@ class CallSet:
             for k, per_sample in r.extra_fmt.items():
                 indiv.append(typed_ints([dict_idx[k]]))
                 num, typ = self.fmt_defs[k]
+                if typ == "String":
+                    # character vectors of equal width, NUL padded; a missing value is '.'
+                    bs = [("." if v is None else str(v)).encode() for v in per_sample]
+                    w_ = max(len(x) for x in bs)
+                    indiv.append(type_descriptor(w_, 7))
+                    indiv.append(b"".join(x + b"\0" * (w_ - len(x)) for x in bs))
+                    continue
                 rows = [v if isinstance(v, (list, tuple)) else [v] for v in per_sample]
                 width = max(len(x) for x in rows)
                 if typ == "Integer":
